@@ -12,6 +12,7 @@ import (
 	"os"
 	"sync"
 	"testing"
+	"time"
 
 	"Havoc/pkg/agent"
 
@@ -140,6 +141,7 @@ type entry struct {
 	noReq   bool               // request id not fixed by the model (never for eUser/eExact with operator ids)
 	via     []*agentfx.Session // target is a pivot agent: the hops from the directly connected agent down to it (nil/len 1 = direct)
 	op      int                // index of the enqueueing operation (reporting)
+	cb      []demonref.Sub     // what the agent reports back (with its next check-in) once it has received this task
 }
 
 func (e *entry) wireLen() int { return len(e.pre) + e.n + e.wrapOverhead() }
@@ -188,6 +190,7 @@ type agentModel struct {
 	q     []*entry
 	ids   []uint32 // file ids bound by the chunk groups preceding the next eUser
 	deliv int      // tasks matched so far
+	cbs   []demonref.Sub // callbacks the agent owes for tasks it has received; sent with its next check-in
 }
 
 func (m *agentModel) empty() bool { return len(m.q) == 0 }
@@ -264,6 +267,7 @@ func (m *agentModel) consume(sub string, t demonref.Task) (pure int, v *core.Vio
 			}
 			m.q = m.q[1:]
 			m.deliv++
+			m.cbs = append(m.cbs, e.cb...)
 			return e.pure, nil
 		case eChunks:
 			if t.Cmd == agent.COMMAND_MEM_FILE {
@@ -402,6 +406,8 @@ type world struct {
 	ses    []*agentfx.Session
 	mod    []*agentModel // the FIFO of agent g; only those of directly connected agents fill up
 	parent []int
+	cfg    Cfg // generated configuration / environment of the case (cfg_test.go)
+	nreq   int // requests served so far (rotation of the profile's URIs)
 }
 
 func newWorld(agents int) (*world, error) {
@@ -411,7 +417,17 @@ func newWorld(agents int) (*world, error) {
 		ids = append(ids, 0x0a0b0001+uint32(i)*0x0101)
 		parents = append(parents, -1)
 	}
-	return newForest(ids, parents)
+	return newForestCfg(ids, parents, Cfg{})
+}
+
+func newWorldCfg(agents int, cfg Cfg) (*world, error) {
+	var ids []uint32
+	var parents []int
+	for i := 0; i < agents; i++ {
+		ids = append(ids, 0x0a0b0001+uint32(i)*0x0101)
+		parents = append(parents, -1)
+	}
+	return newForestCfg(ids, parents, cfg)
 }
 
 // newForest registers agent i with id ids[i]: directly through the endpoint when
@@ -420,26 +436,37 @@ func newWorld(agents int) (*world, error) {
 // [SMB_CONNECT][Success=1][bytes: the child's DEMON_INIT package], relayed hop by hop by
 // the parent's own ancestors (Pivot.c PivotPush: [SMB_COMMAND][bytes: child package]).
 func newForest(ids []uint32, parents []int) (*world, error) {
-	w := &world{rec: tsx.NewRecorder()}
+	return newForestCfg(ids, parents, Cfg{})
+}
+
+// newForestCfg is newForest under a generated configuration: the teamserver's time zone and
+// the listener are set up first, every agent registers with the metadata the configuration
+// gives it (working hours, kill date, sleep, jitter), through the configured listener.
+func newForestCfg(ids []uint32, parents []int, cfg Cfg) (*world, error) {
+	w := &world{rec: tsx.NewRecorder(), cfg: cfg}
 	ep, err := agentfx.Shared(w.rec)
 	if err != nil {
 		return nil, err
 	}
 	w.ep = ep
+	w.applyEnv()
+	now := time.Now()
 	for i, id := range ids {
 		p := parents[i]
 		w.parent = append(w.parent, p)
 		w.mod = append(w.mod, &agentModel{})
 		if p < 0 {
-			s, err := ep.Register(w.rec, id)
-			if err != nil {
-				return nil, err
+			key, iv := agentfx.KeyFor(id)
+			code, _ := w.serve(cfg.meta(i, id, now).InitPackage(id, key, iv))
+			a := w.rec.AgentInstance(int(id))
+			if code != 200 || a == nil {
+				return nil, fmt.Errorf("registration of %08x answered HTTP %d (listener %q)", id, code, cfg.Listener)
 			}
-			w.ses = append(w.ses, s)
+			w.ses = append(w.ses, &agentfx.Session{ID: id, Key: key, IV: iv, A: a})
 			continue
 		}
 		key, iv := agentfx.KeyFor(id)
-		init := agentfx.Meta(id).InitPackage(id, key, iv)
+		init := cfg.meta(i, id, now).InitPackage(id, key, iv)
 		body := (&demonref.Enc{}).Int32(demonref.PivotSmbCon).Int32(1).Bytes(init).B
 		ch := w.chain(p)
 		pkg := demonref.Batch(ch[len(ch)-1].ID, 0, []demonref.Sub{{Cmd: demonref.CmdPivot, ReqID: 0, Body: body}}, ch[len(ch)-1].Key, ch[len(ch)-1].IV)
@@ -447,12 +474,26 @@ func newForest(ids []uint32, parents []int) (*world, error) {
 			b := (&demonref.Enc{}).Int32(demonref.PivotSmbCmd).Bytes(pkg).B
 			pkg = demonref.Batch(ch[j].ID, 0, []demonref.Sub{{Cmd: demonref.CmdPivot, ReqID: 0, Body: b}}, ch[j].Key, ch[j].IV)
 		}
-		code, _ := ep.Serve(pkg)
+		code, _ := w.serve(pkg)
 		a := w.rec.AgentInstance(int(id))
 		if code != 200 || a == nil || a.Pivots.Parent != w.ses[p].A {
 			return nil, fmt.Errorf("SMB connect of %08x below %08x failed (HTTP %d)", id, ids[p], code)
 		}
 		w.ses = append(w.ses, &agentfx.Session{ID: id, Key: key, IV: iv, A: a})
+	}
+	// the operator marks an agent dead (cmd/server Teamserver.Died: Active = false, links removed;
+	// applied only where no link exists, so that the forest stays as generated)
+	for i := range ids {
+		if !cfg.agent(i).Dead || parents[i] >= 0 {
+			continue
+		}
+		leaf := true
+		for _, p := range parents {
+			leaf = leaf && p != i
+		}
+		if leaf {
+			w.ses[i].A.Active = false
+		}
 	}
 	w.rec.Take()
 	return w, nil
@@ -496,7 +537,9 @@ type batchInfo struct {
 func (w *world) checkIn(sub string, g int, ask bool) (batchInfo, *core.Violation) {
 	var bi batchInfo
 	m := w.mod[g]
-	code, tasks, ok := w.ep.CheckIn(w.ses[g], ask, nil)
+	owed := m.cbs
+	m.cbs = nil
+	code, tasks, ok := w.CheckIn(w.ses[g], ask, owed)
 	w.rec.Take()
 	if code != 200 {
 		return bi, core.V(sub+"|checkin|http-status", "check-in of agent %d answered HTTP %d", g, code)
@@ -571,7 +614,7 @@ func (w *world) drain(sub string) *core.Violation {
 			}
 		}
 		// an unfinished chunk group at the very end cannot happen: groups are followed by their command
-		code, tasks, ok := w.ep.CheckIn(w.ses[g], true, nil)
+		code, tasks, ok := w.CheckIn(w.ses[g], true, nil)
 		w.rec.Take()
 		if code != 200 || !ok {
 			return core.V(sub+"|checkin|undecodable-reply", "final check-in of agent %d: HTTP %d", g, code)
